@@ -57,7 +57,9 @@ BAD_REC = error.BAD_RECORD_NUMBER
 BIG = 33554432          # 2^25
 FILES = (b'F.DAT', b'G.DAT')
 VARS = {1: (b'A$', b'B$'), 2: (b'C$', b'D$')}
-LAYOUTS = {'one': {1: 0}, 'diff': {1: 0, 2: 1}, 'same': {1: 0, 2: 0}}    # number -> file index
+LAYOUTS = {'one': {1: 0}, 'diff': {1: 0, 2: 1}, 'same': {1: 0, 2: 0}, 'pre': {1: 0}}    # number -> file index
+# layout 'pre': the file exists before it is opened and its size is not a multiple of the record length
+PRE_CONTENT = b'pqrstuv'
 
 
 def _widths(r):
@@ -126,7 +128,7 @@ class Model(object):
         self.r = r
         self.layout = layout
         nums = LAYOUTS[layout]
-        self.files = {fi: RecordFile(r) for fi in set(nums.values())}
+        self.files = {fi: RecordFile(r, PRE_CONTENT if layout == 'pre' else b'') for fi in set(nums.values())}
         self.writer = {fi: {} for fi in self.files}       # record -> number that wrote it last
         self.nums = {}
         for n, fi in nums.items():
@@ -219,6 +221,9 @@ class Real(object):
         for f in os.listdir(self.path):
             os.remove(os.path.join(self.path, f))
         self.must(b'CLEAR')
+        if self.layout == 'pre':
+            with open(os.path.join(self.path, FILES[0].decode()), 'wb') as f:
+                f.write(PRE_CONTENT)
         for n in sorted(self.nums):
             self.must(self.open_stmt(n))
             self.must(_field_stmt(n, self.r, 0))
@@ -528,6 +533,7 @@ def _cfgs(ctx):
             (('cfg', 'one', 128, recs, probes), 4),
             (('cfg', 'diff', 2, recs, ()), 4),
             (('cfg', 'same', 2, recs, ()), 4),
+            (('cfg', 'pre', 4, (None, 1, 2, 3, 5), ()), 4),
         ]
     recs = (None, 1, 2, 3, 5, 12)
     probes = (0, -1, '33554436', '4E7')
@@ -539,6 +545,8 @@ def _cfgs(ctx):
         (('cfg', 'diff', 2, (None, 1, 2, 5), (0,)), 5),
         (('cfg', 'same', 2, (None, 1, 2, 5), (0,)), 5),
         (('cfg', 'same', 128, (None, 1, 2, 5), ()), 4),
+        (('cfg', 'pre', 4, (None, 1, 2, 3, 5), (0,)), 6),
+        (('cfg', 'pre', 3, (None, 1, 2, 3, 4), ()), 5),
     ]
 
 
